@@ -1,0 +1,25 @@
+//go:build verif
+
+// Contracts for the verification machinery in /verif (comment only, no code).
+package events
+
+// event helpers that receive a scalar straight from an SI message (termination type, change detail): whatever value
+// the shim sent - SI enums are open, any int32 arrives - building the event cannot panic, and exactly one event is
+// handed to the event system when tracking is on
+//@ func (ae *ApplicationEvents) SendRemoveAllocationEvent(appID, allocKey string, allocated *resources.Resource, terminationType si.TerminationType)
+//@   props C13
+//@   sweep
+//@   mode nopanic=on
+//@   holds ae != nil && ae.eventSystem != nil
+
+//@ func (ae *ApplicationEvents) SendRemoveAskEvent(appID, allocKey string, allocated *resources.Resource, detail si.EventRecord_ChangeDetail)
+//@   props C13
+//@   sweep
+//@   mode nopanic=on
+//@   holds ae != nil && ae.eventSystem != nil
+
+//@ func (ae *ApplicationEvents) SendStateChangeEvent(appID string, changeDetail si.EventRecord_ChangeDetail, eventInfo string)
+//@   props C13
+//@   sweep
+//@   mode nopanic=on
+//@   holds ae != nil && ae.eventSystem != nil
